@@ -439,7 +439,9 @@ func runC04Concurrent(r *mon.Run, stream uint64) {
 func runC04(r *mon.Run, replay string) {
 	r.Rule("generated fork-tree histories (incl. rolled-back reorgs) with a population of subscribers (start from nothing; chunk sizes 1,2,3,7,1000,PRNG; some polling rarely so that they sit on abandoned branches); every UpdatesSince result is checked for length <= max, reverts-first parent-by-parent contiguity, applies climbing one height, pure states; diffs and proof updates are folded into a shadow ledger compared with the pure ledger whenever the subscriber is at the tip; ceil(path/max) polls must reach the tip; OnReorg listeners (with churn) must be invoked exactly when the tip changed, with the new tip; concurrent mode: pollers against a submitter under -race, reached-tip polls checked by porcupine against a register model of the tip")
 	if st, ok := replayStream(replay); ok {
-		if st >= 49000 {
+		if st >= 49500 {
+			runC04Deep(r, st)
+		} else if st >= 49000 {
 			runC04Concurrent(r, st)
 		} else {
 			runC04History(r, st)
@@ -461,6 +463,21 @@ func runC04(r *mon.Run, replay string) {
 		}(i)
 	}
 	wg.Wait()
+	// long walks against deep reorgs, two histories at a time
+	nd := r.Pick(6, 60)
+	semD := make(chan struct{}, 2)
+	for i := 0; i < nd; i++ {
+		wg.Add(1)
+		semD <- struct{}{}
+		go func(i int) {
+			defer wg.Done()
+			defer func() { <-semD }()
+			runC04Deep(r, uint64(49500+i))
+		}(i)
+	}
+	wg.Wait()
+	r.Floor("polls_returning_more_than_64_updates", 50)
+	r.Floor("polls_reverting_more_than_64_blocks", 5)
 	r.Floor("polls_with_reverts", 100)
 	r.Floor("ledger_comparisons", 500)
 	r.Floor("reorg_notifications_checked", 200)
